@@ -15,8 +15,8 @@ INIT = {"w1": np.array([1.5, -0.5]), "w2": np.array([[0.75, -2.0], [1.25, 0.5]])
         "w5": np.array(0.8)}
 DT = {"w1": np.float64, "w2": np.float32, "w3": np.float64, "w4": np.float64, "w5": np.float64}
 OPT_PARAMS = ["w1", "w2", "w3", "w5"]    # w3 is frozen, w4 is never given to the optimizer, w5 is a 0-d (scalar) parameter
-TRAINED = ("w1", "w2", "w5")
-EVENTS = "BbzS"
+TRAINED = ("w1", "w2", "w5", "w3")    # w3 counts only after it has been unfrozen (event U)
+EVENTS = "BbzSU"     # U = unfreeze w3 (a parameter that was frozen when the optimizer was built)
 
 def configs():
     out = []
@@ -103,6 +103,7 @@ def run_history(cfg, hist):
     zero_only = set()                          # gradient exists only because zero_grad created it
     ident = {k: (id(P[k]), P[k].dtype, P[k].shape) for k in INIT}
     viols = []
+    frozen = {"w3"}
     def cur():
         return {k: np.asarray(P[k].data, dtype=np.float64).copy() for k in INIT}
     for i, e in enumerate(hist):
@@ -114,6 +115,9 @@ def run_history(cfg, hist):
         try:
             if e in "Bb":
                 lib_loss(sg, P, e).backward()
+            elif e == "U":
+                P["w3"].requires_grad = True
+                frozen.discard("w3"); TP["w3"].requires_grad_(True)
             elif e == "z":
                 opt.zero_grad()
             else:
@@ -124,13 +128,14 @@ def run_history(cfg, hist):
         if e in "Bb":
             g = grads(vals, e)
             for k, gk in g.items():
-                if gk is None or k == "w3": continue
+                if gk is None or k in frozen: continue
                 mgrad[k] = gk if mgrad[k] is None else mgrad[k] + gk
                 zero_only.discard(k)
                 if k != "w4":
                     TP[k].grad = t.from_numpy(np.array(mgrad[k], dtype=np.float64))
         elif e == "z":
             for k in TRAINED:
+                if k in frozen: continue
                 if mgrad[k] is None: zero_only.add(k)
                 else:
                     mgrad[k] = np.zeros_like(mgrad[k]); TP[k].grad = t.zeros_like(TP[k])
@@ -138,6 +143,7 @@ def run_history(cfg, hist):
         exp = {k: [(vals[k], None)] for k in INIT}      # default: unchanged
         if e == "S":
             for k in TRAINED:
+                if k in frozen: continue
                 cands = []
                 for st in alts[k]:
                     if mgrad[k] is not None:
@@ -154,18 +160,18 @@ def run_history(cfg, hist):
             rt, at = tol(k)
             hits = [st for (cand, st) in exp[k] if np.allclose(got[k], cand, rtol=rt, atol=at)]
             if not hits:
-                if k == "w3": kind = "frozen-parameter-moved"
+                if k == "w3" and k in frozen: kind = "frozen-parameter-moved"
                 elif k == "w4": kind = "foreign-parameter-moved"
                 elif e != "S": kind = "parameter-changed-outside-step"
                 else: kind = "wrong-update"
                 v(kind, f"{k} after {prefix}: got {got[k].ravel()}, expected {exp[k][-1][0].ravel()} (cfg {cfg})")
                 return viols, i + 1
-            if e == "S" and k in alts:
+            if e == "S" and k in alts and k not in frozen:
                 uniq = {}
                 for st in hits:
                     uniq[repr({a: (None if b is None else np.round(np.asarray(b, dtype=np.float64), 12).tolist()) for a, b in st.items()})] = st
                 alts[k] = list(uniq.values())
-            if k in ("w3", "w4") and np.asarray(P[k].data).tobytes() != before[k]:
+            if ((k == "w3" and k in frozen) or k == "w4") and np.asarray(P[k].data).tobytes() != before[k]:
                 v("frozen-parameter-moved" if k == "w3" else "foreign-parameter-moved", f"{k} bytes changed after {prefix}")
             if (id(P[k]), P[k].dtype, P[k].shape) != ident[k]:
                 v("parameter-identity-dtype-or-shape-changed", f"{k} after {prefix}: dtype {P[k].dtype}, shape {P[k].shape}")
@@ -176,7 +182,7 @@ def run_history(cfg, hist):
             with t.no_grad():
                 topt.step()
             for k in TRAINED:
-                if ambiguous[k]: continue
+                if ambiguous[k] or k in frozen: continue
                 tv = TP[k].detach().numpy()
                 if not np.allclose(tv, exp[k][0][0], rtol=1e-11, atol=1e-13):
                     raise harness.HarnessError(f"reference update rules disagree with torch.optim for {cfg} after {prefix}: {k} torch {tv.ravel()} model {exp[k][0][0].ravel()}")
@@ -214,13 +220,13 @@ def run(tier, seed):
             best[key] = (pre, {"kind": v["kind"], "detail": v["detail"], "case": {"cfg": v["case"]["cfg"], "history": pre,
                                                                                  **{k: v["case"]["cfg"][k] for k in v["case"]["cfg"]}}})
     viols = [b[1] for b in best.values()]
-    nstates = len(cfgs) * (4 ** (depth + 1) - 1) // 3
+    nstates = len(cfgs) * (5 ** (depth + 1) - 1) // 4
     cov = {"states": nstates, "transitions": nstates - len(cfgs), "traces_validated_against_impl": r["evaluations"],
            "evaluations": r["evaluations"], "distinct_nontrivial": r["distinct_nontrivial"],
            "samples": r["samples"], "exhaustive": True, "depth": depth, "configurations": len(cfgs),
            "rule": f"{len(cfgs)} hyper-parameter configurations (SGD: momentum x dampening x nesterov x weight_decay x maximize, "
-                   f"constructor-accepted only; Adam/AdamW: weight_decay x maximize x betas x eps) x ALL {4 ** depth} histories of "
-                   f"length {depth} over {{backward(L1), backward(L2), zero_grad, step}} (every shorter history is a prefix and is "
+                   f"constructor-accepted only; Adam/AdamW: weight_decay x maximize x betas x eps) x ALL {5 ** depth} histories of "
+                   f"length {depth} over {{backward(L1), backward(L2), zero_grad, step, unfreeze w3}} (every shorter history is a prefix and is "
                    "compared event by event): parameters w1 (float64, first gradient arrives late), w2 (float32, 2x2), w5 (0-d), frozen w3 and foreign w4; states = "
                    "(configuration, history prefix) pairs; after every event parameter values vs the transcribed PyTorch rules "
                    "(cross-validated against torch.optim at 1e-11), identity/dtype/shape, frozen and foreign parameters byte-identical"}
